@@ -30,7 +30,7 @@ func TestMain(m *testing.M) {
 	hx.Main(m)
 }
 
-const ruleC32 = "generated concurrent programs against a real gnet.ConnectionPool listening on 127.0.0.1 (binary built with the race detector; every report is classified by the two functions that touch the shared word, documented patterns are listed as known findings, anything else fails the run): 2-6 worker goroutines each run a drawn list of 3-12 operations {Connect to one of 3 raw TCP peers, raw inbound dial (optionally sending a valid frame, an oversized length prefix or garbage, optionally closing at once), Disconnect of a known / unknown address, SendMessage, BroadcastMessage, GetConnections, Size, GetConnection, SendPings, GetStaleConnections, ListeningAddress, IsMaxOutgoingDefaultConnectionsReached, peer-side close}, each preceded by a drawn pause {none, yield, 50us, 500us, 2ms}; one goroutine calls Shutdown at a drawn position while the others are still running; the pool's callbacks and the send-result channel are serviced as the daemon does; oracle: no race report, no panic, every call returns within 20 s (a hang is reported only if the same program hangs again), every strand-based call that starts after Shutdown returned yields the pool-closed error, Shutdown returns, afterwards no connection is registered (verif hook) and every peer socket has been closed by the pool; non-trivial = at least 2 workers were still issuing operations when Shutdown started and at least one connection was established; distinct by program text"
+const ruleC32 = "generated concurrent programs against a real gnet.ConnectionPool listening on 127.0.0.1, or 1 in 4 running without a listener (RunOffline, outgoing connections only) (binary built with the race detector; every report is classified by the two functions that touch the shared word, documented patterns are listed as known findings, anything else fails the run): 2-6 worker goroutines each run a drawn list of 3-12 operations {Connect to one of 3 raw TCP peers, raw inbound dial (optionally sending a valid frame, an oversized length prefix or garbage, optionally closing at once), Disconnect of a known / unknown address, SendMessage, BroadcastMessage, GetConnections, Size, GetConnection, SendPings, GetStaleConnections, ListeningAddress, IsMaxOutgoingDefaultConnectionsReached, peer-side close}, each preceded by a drawn pause {none, yield, 50us, 500us, 2ms}; one goroutine calls Shutdown at a drawn position while the others are still running; the pool's callbacks and the send-result channel are serviced as the daemon does; oracle: no race report, no panic, every call returns within 20 s (a hang is reported only if the same program hangs again), every strand-based call that starts after Shutdown returned yields the pool-closed error, Shutdown returns, afterwards no connection is registered (verif hook) and every peer socket has been closed by the pool; non-trivial = at least 2 workers were still issuing operations when Shutdown started and at least one connection was established; distinct by program text"
 
 // vmsg is a wire message of the harness: a 4-byte length prefixed payload, handler counts deliveries.
 type vmsg struct {
@@ -77,6 +77,7 @@ type program struct {
 	Workers     [][]op `json:"workers"`
 	ShutdownBy  int    `json:"shutdown_by"`  // worker index
 	ShutdownPos int    `json:"shutdown_pos"` // before which op of that worker
+	Offline     bool   `json:"offline"`      // the pool runs without a listener (RunOffline, as the daemon does when incoming connections are disabled); inbound dials become outgoing connects
 }
 
 var opKinds = []string{"connect", "connect", "dial_in", "dial_in", "disconnect", "disconnect_unknown", "send", "send", "broadcast", "get_connections", "size", "get_connection", "send_pings", "stale", "listening_address", "is_max_default", "peer_close"}
@@ -92,6 +93,7 @@ func genProgram(t *rapid.T) program {
 		}
 		p.Workers = append(p.Workers, ops)
 	}
+	p.Offline = rapid.IntRange(0, 3).Draw(t, "offline") == 0
 	p.ShutdownBy = rapid.IntRange(0, nw-1).Draw(t, "shutdown_by")
 	p.ShutdownPos = rapid.IntRange(0, len(p.Workers[p.ShutdownBy])).Draw(t, "shutdown_pos")
 	return p
@@ -231,7 +233,13 @@ func runProgram(p program) outcome {
 		return out
 	}
 	runDone := make(chan error, 1)
-	go func() { runDone <- pool.Run() }()
+	go func() {
+		if p.Offline {
+			runDone <- pool.RunOffline()
+		} else {
+			runDone <- pool.Run()
+		}
+	}()
 	// the daemon drains the send results
 	drainQuit := make(chan struct{})
 	var drainWG sync.WaitGroup
@@ -248,14 +256,14 @@ func runProgram(p program) outcome {
 	}()
 	// wait for the listener (through the public query, as the repository's own tests do)
 	var laddr string
-	for i := 0; i < 2000; i++ {
+	for i := 0; i < 2000 && !p.Offline; i++ {
 		if a, err := pool.ListeningAddress(); err == nil && a != nil {
 			laddr = a.String()
 			break
 		}
 		time.Sleep(time.Millisecond)
 	}
-	if laddr == "" {
+	if laddr == "" && !p.Offline {
 		out.violation = "HARNESS: pool did not start listening"
 		return out
 	}
@@ -282,6 +290,9 @@ func runProgram(p program) outcome {
 		after := atomic.LoadInt32(&shutdownReturned) == 1
 		var err error
 		strandOp := true
+		if p.Offline && o.Kind == "dial_in" {
+			o.Kind = "connect"
+		}
 		switch o.Kind {
 		case "connect":
 			err = pool.Connect(peers[o.Arg%3].ln.Addr().String())
@@ -557,6 +568,9 @@ func TestC32_PoolConcurrency(t *testing.T) {
 		r.CaseS(nt, string(b))
 		if o.lagging {
 			r.Count("harness_socket_counters_lagging")
+		}
+		if p.Offline {
+			r.Count("programs_without_listener")
 		}
 		r.CountN("connections_established", o.connected)
 		r.CountN("ops_after_shutdown", int64(o.afterShutdown))
